@@ -1738,6 +1738,11 @@ def token_stream(ck, real, drv, rng):
         t = "".join(p + sp for p, sp in zip(ps, seps))
         if i % 3 == 2:
             t = mutate(t)
+            if not t.isascii():
+                # a mutation can strip the quotes around a non-ASCII character literal; outside quotes Python's \w / \b are Unicode-aware
+                # ('$\u00e9' is a source name for the real lexer) while the reference lexer and the Lean model are ASCII - outside the
+                # modelled language (thorough tier raised a false alarm here), so mutated texts are kept ASCII
+                t = "".join(ch if ord(ch) < 128 else "e" for ch in t)
         srcs = [x for x in srcs_pool if rng.random() < 0.5]
         cases.append((t, srcs))
     models = drv.batch(["K %s %s" % (hx(t), " ".join(srcs)) for t, srcs in cases])
